@@ -53,7 +53,9 @@ def gen_network(rng, max_units, force=None):
         elif force == "close" and li == 0 and w >= 2:
             # two breakpoints 2^-21 / 2^-22 apart: a region far thinner than tau = 1e-6 but far wider than any LP tolerance
             M[1] = list(M[0])
-            c[1] = c[0] - rng.choice([FR(1, 2**21), FR(1, 2**22)])
+            if rng.random() < 0.6:
+                c[0] = -abs(c[0]) - FR(1, 2)      # the origin (the LP's usual vertex for the first region) lies away from the thin region
+            c[1] = c[0] + rng.choice([1, -1]) * rng.choice([FR(1, 2**21), FR(1, 2**22)])      # thin region behind a label-1 or a label-0 edge
         elif s < 0.18:
             M[0] = [FR(0)] * dim     # zero row: constant neuron
         elif s < 0.25 and w >= 2:
@@ -67,6 +69,8 @@ def gen_network(rng, max_units, force=None):
             if units >= max_units:
                 break
             a = rng.choice(acts)
+            if force == "close" and li == 0 and r < 2:
+                a = "relu"      # the two close breakpoints belong to the same kind of activation
             if a == "none":
                 continue
             units += 1
